@@ -86,7 +86,12 @@ def circOp (s : Store) (j : Json) : Store × Json :=
   | .ok op =>
     let (s1, r1) := step (decideB true) s op
     let (s2, r2) := step (decideB false) s op
-    let j1 := Json.mkObj [("r", resToJson r1), ("store", storeToJson s1)]
+    let extra : List (String × Json) := match op with
+      | .entangled a => match need s a with
+        | .ok ca => [("groups_ok", Json.bool (Circuit.groupsOkB ca.entangledIndices ca.gates))]
+        | .error _ => []
+      | _ => []
+    let j1 := Json.mkObj ([("r", resToJson r1), ("store", storeToJson s1)] ++ extra)
     let j2 := Json.mkObj [("r", resToJson r2), ("store", storeToJson s2)]
     (s1, j1.setObjVal! "stable" (Json.bool (j1.compress == j2.compress)))
 
